@@ -3,8 +3,10 @@
 package vrun
 
 import (
+	"encoding/json"
 	"fmt"
 	"sort"
+	"strings"
 
 	"go.flow.arcalot.io/engine/internal/yaml"
 	"go.flow.arcalot.io/engine/workflow"
@@ -46,26 +48,91 @@ func DumpDAG(wf workflow.ExecutableWorkflow) *DAGDump {
 	return d
 }
 
-// DumpSchemas serialises output schemas and namespaces.
+// DumpSchemas renders output schemas and namespaces structurally. Randomly generated object ids
+// (inferred_schema_<32 chars>) are dropped and references are expanded in place, so that two
+// preparations of the same text give identical dumps.
 func DumpSchemas(wf workflow.ExecutableWorkflow) (map[string]any, any) {
 	outs := map[string]any{}
 	for id, s := range wf.OutputSchema() {
-		ser, err := schema.DescribeStepOutput().Serialize(s)
-		if err != nil {
-			outs[id] = "ERR:" + err.Error()
-			continue
-		}
-		outs[id] = Normalize(ser)
+		outs[id] = map[string]any{"error": s.Error(), "schema": structural(s.Schema(), s.Schema(), 10)}
 	}
 	ns := map[string]any{}
 	for path, objs := range wf.Namespaces() {
 		m := map[string]any{}
 		for id, o := range objs {
-			m[id] = DescribeType(o, 6)
+			d := structural(o, nil, 6)
+			key := id
+			if isInferredID(id) {
+				b, _ := json.Marshal(d)
+				key = fmt.Sprintf("inferred#%x", fnv64(b))
+			}
+			m[key] = d
 		}
 		ns[path] = m
 	}
 	return outs, ns
+}
+
+func fnv64(b []byte) uint64 {
+	h := uint64(0xcbf29ce484222325)
+	for _, c := range b {
+		h ^= uint64(c)
+		h *= 0x100000001b3
+	}
+	return h
+}
+
+func isInferredID(id string) bool {
+	return strings.HasPrefix(id, "inferred_schema_")
+}
+
+func structural(t schema.Type, scope schema.Scope, depth int) any {
+	if t == nil {
+		return nil
+	}
+	if depth <= 0 {
+		return string(t.TypeID())
+	}
+	switch x := t.(type) {
+	case schema.Scope:
+		root, ok := x.Objects()[x.Root()]
+		if !ok {
+			return map[string]any{"type": "scope", "root": "missing"}
+		}
+		return map[string]any{"type": "scope", "root": structural(root, x, depth-1)}
+	case schema.Object:
+		props := map[string]any{}
+		for name, p := range x.Properties() {
+			props[name] = map[string]any{"required": p.Required(), "type": structural(p.Type(), scope, depth-1)}
+		}
+		out := map[string]any{"type": "object", "properties": props}
+		if !isInferredID(x.ID()) {
+			out["id"] = x.ID()
+		}
+		return out
+	case schema.UntypedList:
+		return map[string]any{"type": "list", "items": structural(x.Items(), scope, depth-1)}
+	case schema.UntypedMap:
+		return map[string]any{"type": "map", "keys": structural(x.Keys(), scope, depth-1), "values": structural(x.Values(), scope, depth-1)}
+	case schema.Ref:
+		if scope != nil && x.Namespace() == schema.SelfNamespace {
+			if o, ok := scope.Objects()[x.ID()]; ok {
+				return structural(o, scope, depth-1)
+			}
+		}
+		id := x.ID()
+		if isInferredID(id) {
+			id = "inferred"
+		}
+		return map[string]any{"type": "ref", "id": id, "namespace": x.Namespace()}
+	case schema.OneOf[string]:
+		opts := map[string]any{}
+		for k, o := range x.Types() {
+			opts[k] = structural(o, scope, depth-1)
+		}
+		return map[string]any{"type": "oneof_string", "discriminator": x.DiscriminatorFieldName(), "options": opts}
+	}
+	return string(t.TypeID())
 }
 
 // DecodeYAMLInput decodes an input document the way engine.Workflow.Run does.
